@@ -309,3 +309,22 @@ PROPERTIES["C14"] = dict(
         dict(pkg="diagnostic", files=["diagnostic/zz_verif_c11.go", "diagnostic/zz_verif_c14.go"], entry="Harness_C14_ToPos", args=dict(sample_every=31)),
     ],
 )
+
+PROPERTIES["C20"] = dict(
+    explanation="K2 (call-site gating in the inference engine): symx executes Engine.ObservePackage / buildPkgInferenceMap / buildFromSingleFullTrigger / activateControlledTriggers from SSA on real FullTrigger "
+                "values that include CONTROLLED triggers (the form in which an inferred nonnil->nonnil contract reaches the engine: 'the call-site result is nilable if the call-site argument is'), with annotations "
+                "replayed first, symbolic site identities and every arrival order; the oracle is the least fixpoint of 'nilable' in which a controlled constraint exists iff its controller site is nilable.",
+    bounds=dict(quick="<=3 triggers/annotations over 2x2 sites incl. controlled triggers (C05 L2 harness); the six-trigger `return nil, e2()` -> g(v) -> *g(v) scenario in all 720 orders, value result incorporated in either inference round",
+                thorough="<=4 triggers over 2x2 sites"),
+    outside=["K1, the derivation of the contract itself (functioncontracts.inferContracts over go/ssa): building or importing ssa.Function values inside the executor was not achieved (unexported instruction state); "
+             "the sentence 'whenever the analysis concludes nonnil->nonnil ... this is true of every execution' is therefore NOT decided by this check",
+             "the call-site bookkeeping in the assertion tree (AddComputation: HasContract, getFuncReturnProducers, duplicateFullTrigger)", "cross-package contract facts"],
+    assumptions=COMMON_ASSUMPTIONS + ["primitivizer.site/fullTrigger stubbed as in C05 L2 (validated natively)", "the consumer site of a controlled trigger is a call-site return site (duplicateFullTrigger)"],
+    runs=[
+        dict(pkg="inference", files=INFER_FILES, entry="Harness_C05_L2",
+             quick=dict(params=dict(S=2, N=3)), thorough=dict(params=dict(S=2, N=4)), args=dict(sample_every=997)),
+        dict(pkg="inference", files=INFER_FILES, entry="Harness_C08_Rounds", args=dict(sample_every=97)),
+        dict(pkg="inference", files=INFER_FILES, entry="Harness_C04_K3", map_order=True,
+             quick=dict(params=dict(TRIGGERS=3)), thorough=dict(params=dict(TRIGGERS=4)), args=dict(sample_every=1)),
+    ],
+)
